@@ -463,6 +463,17 @@ _ADDED9 = {
 }
 for _k, _v in _ADDED9.items():
     CLAIMS[_k]["text"] = CLAIMS[_k]["text"] + _v
+_ADDED10 = {
+    "C05": " (K11) a block's duration is latest end minus earliest start over all its operations, so a copy placed elsewhere reports the duration of its original (shared C04.D1/D2).",
+    "C08": " S4's case analysis runs on whichever function builds the DETECTOR instruction (the operation's method, or a factory's construct that does not delegate).",
+    "C09": " (P17) unrolling a block repeated n times yields exactly n copies for every n (shared C06.U2).",
+    "C11": " (F12) = C04.D1/D2: what follows a nested block starts at the same time before and after flattening.",
+    "C12": " X3 also splits over further bool switches of the Qutrit kernel (containment of every category in [start, stop] for non-default settings); X9 decides an answer that is not a strided slice by evaluating it for 1..3 repetitions (bounded).",
+    "C13": " (M10) a description's circuit_channel_map is keyed by map_qubit_id_to_circuit_index, and the calibration description's index map is derived from it.",
+    "C19": " I1 evaluates channel equality written with bit masks (enum values, len(Enum), shifts) on every pair of channels.",
+}
+for _k, _v in _ADDED10.items():
+    CLAIMS[_k]["text"] = CLAIMS[_k]["text"] + _v
 for _k in ("C01", "C02", "C04", "C05", "C06", "C07", "C08", "C09", "C10", "C11", "C13", "C15", "C18"):
     CLAIMS[_k]["text"] = CLAIMS[_k]["text"] + _DEPTH
 _PY = (" Every check also runs eleven lints for slips of the Python data model (qcolint/pylints.py; rules <id>.PY1..PY11) over the files the property's anchors name: "
